@@ -265,8 +265,11 @@ class Ctx:
               "coverage": cov, "assumptions": self.assumptions, "wall_s": round(time.time() - self.t0, 2),
               "violations": len(printed), "known_findings_observed": sorted(seen_known),
               "notes": self.notes}
-        os.makedirs(os.path.join(VERIF, "evidence"), exist_ok=True)
-        json.dump(ev, open(os.path.join(VERIF, "evidence", self.pid + ".json"), "w"), indent=1)
+        # runs against a scratch copy of the repository (tools/mutate.py sets VERIF_REPO) must not overwrite the evidence
+        # of the real tree, nor its replay files
+        evdir = os.path.join(VERIF, "evidence") if not os.environ.get("VERIF_REPO") else os.path.join(VERIF, "work", "mutant-evidence")
+        os.makedirs(evdir, exist_ok=True)
+        json.dump(ev, open(os.path.join(evdir, self.pid + ".json"), "w"), indent=1)
         shutil.rmtree(self.work, ignore_errors=True)
         return 1 if printed else 0
 
